@@ -25,6 +25,8 @@ struct Eng<'a> {
     spy: Arc<NodeSpy>,
     pools: Pools,
     orders: BTreeSet<u64>,
+    /// Leaf input digests of the most recent run (for cross-run comparisons).
+    last_digests: BTreeMap<(Word, Word), Vec<Word>>,
 }
 
 fn case_json(sc: &Scenario, extra: serde_json::Value) -> serde_json::Value {
@@ -45,6 +47,12 @@ fn expected_obs(info: &scen::RefInfo) -> BTreeMap<(Word, Word, usize), Vec<Word>
 impl<'a> Eng<'a> {
     /// Reference + one real run + all oracles. Returns (reference verdict, real verdict).
     fn judge(&mut self, sc: &Scenario, pool: usize, delay_seed: u64, kind: &str) -> (RefVerdict, RealVerdict, scen::RefInfo) {
+        let (a, b, c, d) = self.judge_full(sc, pool, delay_seed, kind);
+        self.last_digests = d;
+        (a, b, c)
+    }
+
+    fn judge_full(&mut self, sc: &Scenario, pool: usize, delay_seed: u64, kind: &str) -> (RefVerdict, RealVerdict, scen::RefInfo, BTreeMap<(Word, Word), Vec<Word>>) {
         crate::wal(&|| case_json(sc, json!({"pool": pool, "delay_seed": delay_seed})));
         self.spy.take();
         self.spy.phase.store(0, Ordering::SeqCst);
@@ -134,7 +142,9 @@ impl<'a> Eng<'a> {
             let v = format!("{:?}", run.verdict);
             self.rep.sample(3, || json!({"workload": kind, "scenario": sc.summary(), "real_verdict": v.chars().take(300).collect::<String>()}));
         }
-        (rv, run.verdict, info)
+        let dg = scen::digests(&run.beacons);
+        self.rep.add("leaf_digest_beacons", dg.len() as u64);
+        (rv, run.verdict, info, dg)
     }
 }
 
@@ -218,6 +228,7 @@ fn permutation_check(e: &mut Eng, sc: &Scenario, r: &mut Rng, canonical: bool) {
     let addr0 = content_addr(&set);
     let cs0 = sol::check_set(&set).is_ok();
     let (rv0, real0, info0) = e.judge(sc, 0, 0, "permutation-base");
+    let dg0 = std::mem::take(&mut e.last_digests);
     if !cs0 {
         e.rep.count("sets_rejected_by_check_set");
         return;
@@ -246,6 +257,10 @@ fn permutation_check(e: &mut Eng, sc: &Scenario, r: &mut Rng, canonical: bool) {
             diffs.push("check_set verdict differs".into());
         }
         let (_rv2, real2, info2) = e.judge(&sc2, 0, 0, "permutation");
+        let dg2 = std::mem::take(&mut e.last_digests);
+        if matches!((&real0, &real2), (RealVerdict::Ok { .. }, RealVerdict::Ok { .. })) && dg0 != dg2 {
+            diffs.push(format!("{} leaves received different data", dg0.iter().filter(|(k, v)| dg2.get(*k) != Some(*v)).count()));
+        }
         match (&real0, &real2) {
             (RealVerdict::Ok { gas: g0, mutations: m0 }, RealVerdict::Ok { gas: g2, mutations: m2 }) => {
                 if g0 != g2 {
@@ -323,7 +338,7 @@ pub fn run(args: &Args, rep: &mut Report) {
     let thorough = args.tier == "thorough";
     let mut r = Rng::new(crate::rng::mix(args.seed.wrapping_mul(1_000_003) + args.shard as u64, 0x5ce7));
     let scale = |q: f64, t: f64| (((if thorough { t } else { q }) * args.scale) as u64 / args.nshards as u64).max(1);
-    let mut e = Eng { rep, spy: spy.clone(), pools: Pools::new(), orders: BTreeSet::new() };
+    let mut e = Eng { rep, spy: spy.clone(), pools: Pools::new(), orders: BTreeSet::new(), last_digests: BTreeMap::new() };
     match args.prop.as_str() {
         "C01" | "C03" | "C06" | "C16" => {
             let n = scale(30_000.0, 1_200_000.0);
@@ -358,6 +373,7 @@ pub fn run(args: &Args, rep: &mut Report) {
                 let o = opts_for("C02", &mut r);
                 let sc = scengen::gen_scenario(&mut r, &o);
                 let mut first: Option<(RealVerdict, usize, u64)> = None;
+                let mut first_dg: Option<BTreeMap<(Word, Word), Vec<Word>>> = None;
                 for &p in pools {
                     for s in 0..seeds {
                         let ds = if s == 0 { 0 } else { r.next_u64() | 1 };
@@ -374,6 +390,15 @@ pub fn run(args: &Args, rep: &mut Report) {
                                 };
                                 if !same && !matches!(reference(&sc).0, RefVerdict::Unspec(_)) {
                                     e.rep.violation("C02", "entry-points-disagree", format!("two-pass under pool {p0} gives {}, Outputs+Checks under pool {p} gives {}", short(f), short(&m)), case_json(&sc, json!({"pools": [p0, p]})));
+                                }
+                            }
+                        }
+                        let dg = std::mem::take(&mut e.last_digests);
+                        match &first_dg {
+                            None => first_dg = Some(dg),
+                            Some(d0) => {
+                                if *d0 != dg && matches!(real, RealVerdict::Ok { .. }) {
+                                    e.rep.violation("C02", "schedule-dependent-node-input", format!("the data reaching the leaves differs between pool sizes / schedules (pool {p}, delay {ds}): {} leaf digests differ", d0.iter().filter(|(k, v)| dg.get(*k) != Some(*v)).count()), case_json(&sc, json!({"pool": p, "delay_seed": ds})));
                                 }
                             }
                         }
@@ -431,7 +456,7 @@ pub fn replay(v: &serde_json::Value, rep: &mut Report) {
             return;
         }
     };
-    let mut e = Eng { rep, spy, pools: Pools::new(), orders: BTreeSet::new() };
+    let mut e = Eng { rep, spy, pools: Pools::new(), orders: BTreeSet::new(), last_digests: BTreeMap::new() };
     let mut r = Rng::new(1);
     let pool = v.get("extra").and_then(|x| x.get("pool")).and_then(|p| p.as_u64()).unwrap_or(0) as usize;
     e.judge(&sc, pool, 0, "replay");
@@ -439,4 +464,27 @@ pub fn replay(v: &serde_json::Value, rep: &mut Report) {
         permutation_check(&mut e, &sc, &mut r, false);
     }
     let _ = SolutionSet { solutions: vec![] };
+}
+
+/// Debug aid: print what the reference and the real checker make of a recorded scenario.
+pub fn explain(v: &serde_json::Value) {
+    let sc: Scenario = serde_json::from_value(v.get("scenario").cloned().unwrap_or_default()).expect("scenario");
+    let _spy = NodeSpy::install();
+    let (rv, info) = reference(&sc);
+    println!("reference: {rv:?}");
+    println!("deferred: {:?}", info.deferred);
+    for b in &info.ref_beacons {
+        println!("  ref beacon kind {} tag {} node {} payload {:?}", b.kind, b.tag, b.node, b.payload);
+    }
+    for (i, s) in sc.solutions.iter().enumerate() {
+        println!("solution {i}: pred {} contract {} declared {:?} data {:?}", sc.sol_pred[i], s.predicate_to_solve.contract, s.state_mutations, s.predicate_data);
+    }
+    let run = run_two_pass(&sc, sc.solutions.clone(), None, 0);
+    println!("real: {:?}", run.verdict);
+    for (pi, ps) in sc.programs.iter().enumerate() {
+        for (ni, p) in ps.iter().enumerate() {
+            let ops: Vec<_> = essential_vm::asm::from_bytes(p.0.iter().copied()).filter_map(|o| o.ok()).collect();
+            println!("pred {pi} node {ni} (abs {}): {:?}", sc.abs_id[pi][ni], ops.iter().skip(20).map(|o| format!("{o:?}")).collect::<Vec<_>>().join(" "));
+        }
+    }
 }
